@@ -32,7 +32,8 @@ ASSUMPTIONS = ["oracle premises of the theorems (explicit hypotheses): MD5 diges
                "(each table entry is also exercised against the real crates by the correspondence run)",
                "the derive-generated CryptDict::from_primitive is outside the model (the model starts from the parsed dictionary)",
                "Rust u8 wrapping arithmetic, slice bounds and u32 checked_mul as written into the model"]
-RULE = ("crypt_open: handler variants R2 (40 bit), R3 (40..128 step 8), R4 (V2 / AESV2), R5, R6, and V4/V5 dictionaries whose /StmF and /StrF "
+RULE = ("crypt_open: handler variants R2 (40 bit), R3 (40..128 step 8), R4 (V2 / AESV2), R5, R6 (among them documents whose user validation salt makes "
+        "Algorithm 2.B stop exactly on its boundary: round i >= 64 with last byte i - 32), and V4/V5 dictionaries whose /StmF and /StrF "
         "name different crypt filters (RC4 / AES-128 / AES-256 / Identity, Identity explicit or absent, both Identity) x passwords (empty, ASCII, 31/32/33/40 bytes, "
         "bytes >= 0x80, UTF-8 needing SASLprep, >127 bytes) x P x document id x EncryptMetadata x crypt-filter length spelling, opened with the user, "
         "the owner and wrong passwords, each followed by Decoder::decrypt (stream data) and Decoder::decrypt_string (strings), alternately, of payloads of lengths {0,1,15,16,17,31,32,1000} under object numbers up to "
